@@ -59,6 +59,8 @@ pub(crate) struct State {
 
     #[cfg(debug_assertions)]
     pub(crate) only_in_debug: OnlyInDebug,
+    #[cfg(cormacrelf_incremental_rs_verif)]
+    pub(crate) verif: crate::verif::VerifState,
 }
 
 impl Debug for State {
@@ -149,6 +151,8 @@ impl State {
             weak_maps: RefCell::new(vec![]),
             #[cfg(debug_assertions)]
             only_in_debug: OnlyInDebug::default(),
+            #[cfg(cormacrelf_incremental_rs_verif)]
+            verif: Default::default(),
         })
     }
 
@@ -214,6 +218,11 @@ impl State {
 
     pub(crate) fn observe<T: Value>(&self, incr: Incr<T>) -> Rc<InternalObserver<T>> {
         let internal_observer = InternalObserver::new(incr);
+        #[cfg(cormacrelf_incremental_rs_verif)]
+        self.verif.register_observer(
+            Rc::downgrade(&internal_observer) as Weak<dyn ErasedObserver>,
+            internal_observer.id().verif_raw(),
+        );
         self.num_active_observers.increment();
         let mut no = self.new_observers.borrow_mut();
         no.push(Rc::downgrade(&internal_observer) as Weak<dyn ErasedObserver>);
